@@ -7,6 +7,7 @@ import rxsci.container.json as J
 from vp import drivers as D
 from vp.engine import Ob
 from vp.harness import mk, fail
+from vp import harness
 from vp.stubs import codecs_model, linejson, shortread, streamcodec
 
 PROP = 'C19'
@@ -32,22 +33,15 @@ class Env(object):
         self.as_bytes = as_bytes
 
     def __enter__(self):
-        m = sys.modules
-        self.saved = [
-            (m['rxsci.container.json'], 'json', J.json), (m['rxsci.container.json'], 'serialization_as_string', J.serialization_as_string),
-            (m['rxsci.data.codec'], 'codecs', m['rxsci.data.codec'].codecs),
-            (m['rxsci.compression.z'], 'zlib', m['rxsci.compression.z'].zlib), (m['rxsci.compression.zstd'], 'zstandard', m['rxsci.compression.zstd'].zstandard),
-        ]
-        J.json = self.js
-        J.serialization_as_string = not self.as_bytes
-        m['rxsci.data.codec'].codecs = codecs_model.FakeCodecs
-        m['rxsci.compression.z'].zlib = streamcodec.FakeZlib(self.rec)
-        m['rxsci.compression.zstd'].zstandard = streamcodec.FakeZstd(self.rec)
+        self.ctx = harness.stubbed([
+            ('rxsci.container.json', 'json', self.js), ('rxsci.container.json', 'serialization_as_string', not self.as_bytes),
+            ('rxsci.data.codec', 'codecs', codecs_model.FakeCodecs),
+            ('rxsci.compression.z', 'zlib', streamcodec.FakeZlib(self.rec)), ('rxsci.compression.zstd', 'zstandard', streamcodec.FakeZstd(self.rec))])
+        self.ctx.__enter__()
         return self
 
     def __exit__(self, *a):
-        for mod, name, val in self.saved:
-            setattr(mod, name, val)
+        self.ctx.__exit__()
         return False
 
 
